@@ -948,4 +948,44 @@ example : readProofStream 8 (10 :: List.replicate 9 0) = none ∧
     readProofStream 8 (10 :: List.replicate 12 0) = some (10, List.replicate 8 0, 2) ∧
     readProofStream 8 [] = none ∧ readProofStream 8 [10] = none := by decide +kernel
 
+/-! ### `set_header_nonce`: the nonce is part of the seed, for every nonce value
+
+`common::set_header_nonce(header, Some(n))` replaces the last four header bytes by `n` (little
+endian) and hashes the result; `None` hashes the header as it is.  All five contexts go through it. -/
+
+/-- **`keys(header, some n) = keys(splice header n, none)` for every `n`, `0` included.** -/
+theorem setHeaderNonce (hdr : Bytes) (n : Nat) :
+    keysOfHeader hdr (some n) = keysOfHeader (spliceNonce hdr n) none := rfl
+
+/-- in particular `Some(0)` is not `None`: it seeds the graph of the header with its last four
+bytes zeroed -/
+theorem setHeaderNonce_zero (hdr : Bytes) :
+    keysOfHeader hdr (some 0) = keysOfHeader (hdr.take (hdr.length - 4) ++ [0, 0, 0, 0]) none := rfl
+
+/-- a context seeded with `(header, Some(n))` is the context seeded with the spliced header and no
+nonce: same keys, same verdict on every proof, for each of the five graph definitions -/
+theorem seed_some_eq_seed_spliced (c : Ctx) (hdr : Bytes) (n : Nat) (solve : Bool) (nonces : List Nat) :
+    (c.step (.seed hdr (some n) solve)).keys = (c.step (.seed (spliceNonce hdr n) none solve)).keys ∧
+    (c.step (.seed hdr (some n) solve)).verify nonces =
+      (c.step (.seed (spliceNonce hdr n) none solve)).verify nonces := by
+  have h : c.step (.seed hdr (some n) solve) = c.step (.seed (spliceNonce hdr n) none solve) := by
+    simp only [Ctx.step, setHeaderNonce]
+  rw [h]
+  exact ⟨rfl, rfl⟩
+
+/-- the spliced header has the length of the original (headers of at least four bytes) and ends in
+the nonce -/
+theorem spliceNonce_length (hdr : Bytes) (n : Nat) (h : 4 ≤ hdr.length) :
+    (spliceNonce hdr n).length = hdr.length := by
+  unfold spliceNonce
+  have : (leBytes 4 n).length = 4 := by simp [leBytes]
+  rw [List.length_append, List.length_take, this]
+  omega
+
+-- `Some(0)` on a header whose last four bytes are not zero seeds another graph than `None`
+example : (keysOfHeader [1, 2, 3, 4, 5, 6, 7, 8] (some 0)).k0 ≠ (keysOfHeader [1, 2, 3, 4, 5, 6, 7, 8] none).k0 ∧
+    (keysOfHeader [1, 2, 3, 4, 5, 6, 7, 8] (some 0)).k0 = (keysOfHeader [1, 2, 3, 4, 0, 0, 0, 0] none).k0 ∧
+    (keysOfHeader [1, 2, 3, 4, 5, 6, 7, 8] (some 1)).k0 ≠ (keysOfHeader [1, 2, 3, 4, 5, 6, 7, 8] (some 0)).k0 := by
+  decide +kernel
+
 end GV.Props.C05
